@@ -82,6 +82,19 @@ def specs_for(tier, seed):
             certs=[simple_cert("c1"), simple_cert("c2", endpoint="B")],
             meta={"family": "roll-over on an endpoint two generations behind", "keys": [a, b, c]},
             steps=[("run", {}), ("call", set_account(key_type=b)), ("run", {}), ("call", set_account(key_type=c)), ("run", {})])
+    # key and contacts changed together and the synchronisation does not get through (the CA refuses the contacts, or their update is
+    # lost on the way) after the roll-over was accepted: later requests - in this process and after a restart - are still signed by
+    # the key the CA holds by then
+    def refuse_next_update(fault):
+        def f(sc):
+            ca = sc.cas["A"]
+            with ca.mu:
+                ca.script = [{"kind": "account", "nth": ca.kind_count.get("account", 0) + 1, "repeat": 1, "fault": fault}]
+        return f
+    for a, b, fault in (("ecdsa_p256", "ecdsa_p384", "acme:invalidContact:400"), ("rsa2048", "ed25519", "drop_after"), ("ecdsa_p384", "rsa2048", "drop_before")):
+        add(accounts=[acct(key_type=a)], meta={"family": "roll-over accepted, contacts update fails", "from": a, "to": b, "fault": fault},
+            steps=[("run", {}), ("call", set_account(key_type=b, contacts=[{"mailto": "new@example.org"}])), ("call", refuse_next_update(fault)), ("run", {"attempts": 1}),
+                   ("run", {"attempts": 2})])
     add(meta={"family": "contact update"},
         steps=[("run", {}), ("call", set_account(contacts=[{"mailto": "x@example.org"}, {"mailto": "y@example.org"}])), ("run", {})])
     add(meta={"family": "CA forgets the account, then renewal"}, steps=[("run", {}), ("call", forget()), ("run", {})])
